@@ -390,7 +390,7 @@ static bool run_parallel(const Case &c, pbt::Ctx &ctx)
                         set_state(0);
                         while (g_finished.load() < n) relax(sp);
                         ctx.label("parallel-round-timeout(inconclusive)");
-                        continue;
+                        break; // a waiter that never returns would cost the bound again in every further round; termination is the deterministic engine's call
                 }
                 int unp = 0;
                 for (int i = 0; i < n; i++) unp += g_pt[i].unpublished_before;
